@@ -91,6 +91,31 @@ static void wait_stop_restart()
     pmc_outcome("ok");
 }
 
+// pika::wait() with the non-default queue policies (local, static: local_queue_scheduler has its own
+// create_thread accounting): a task that spawns children; wait() may return only when all of them are done
+static void wait_local_policies()
+{
+    static Ledger L;
+    L = Ledger{};
+    g = &L;
+    static const char* lp[] = {"local", "static"};
+    int p = pmc_choose(2, 0);
+    int last = 1 + pmc_choose(2, 0);    // chain 0 -> 1 (-> 2)
+    pmc_on_stuck(on_stuck);
+    rt::config c;
+    c.workers = 2;
+    c.scheduler = lp[p];
+    g_phase = 1;
+    rt::start(c);
+    submit_chain(0, last);
+    g_phase = 2;
+    pika::wait();
+    PMC_ASSERT(L.all_done(0, last + 1), "wait-returned-early", "pika::wait() returned while submitted tasks (or tasks they spawned) had not finished (policy %s): left = %d %d %d", lp[p], L.left[0], L.left[1], L.left[2]);
+    g_phase = 3;
+    rt::stop();
+    pmc_outcome("policy=%s last=%d", lp[p], last);
+}
+
 // "started again any number of times": five incarnations in a row (plus the warm-up incarnation that ran
 // before the execution was forked), alternating worker counts and policies, each running its own work
 static void restart_many()
@@ -202,9 +227,10 @@ int main(int argc, char** argv)
         {"wait_stop_restart", wait_stop_restart, 2, 3, 0.4, 0.4, 1, focus, sites, "src"},
         {"stop_before_finalize", stop_before_finalize, 1, 3, 0.3, 0.3, 1, focus, sites, "src"},
         {"suspend_resume", suspend_resume, 2, 3, 0.3, 0.3, 1, focus, sites, "src"},
+        {"wait_local_policies", wait_local_policies, 2, 3, 0.15, 0.1, 1, focus, sites, "src"},
         {"restart_many", restart_many, 0, 1, 0.05, 0.05, 0, focus, sites, "src"},
     };
-    static const char* assumptions[] = {"sequentially consistent interleavings only", "1-2 worker threads; policies local-priority-fifo, static-priority, abp-priority-lifo, local"};
+    static const char* assumptions[] = {"sequentially consistent interleavings only", "1-2 worker threads; policies local-priority-fifo, static-priority, abp-priority-lifo, local, static"};
     pmc_config cfg{};
     cfg.property_id = "C05";
     cfg.rule = "life-cycle histories {start, submit chains that spawn, wait, finalize, stop, restart with another configuration and an entry function, five restarts in a row, stop entered before finalize with an external submitter, suspend, [resume, suspend,] submit, resume} x policies (data choices) x all schedules within the deviation bound";
